@@ -564,7 +564,7 @@ func TestVerifC04(t *testing.T) {
 				continue
 			}
 			var op vc04Op
-			if json.Unmarshal([]byte(line), &op) != nil || op.Op == "cfg" {
+			if json.Unmarshal([]byte(line), &op) != nil || (op.Op != "req" && op.Op != "matchesPath" && op.Op != "bindOf") {
 				continue
 			}
 			if op.Op == "req" { // credentials are regenerated (keys are fresh each run): look the kind up
